@@ -173,6 +173,12 @@ def mutate(segs, rnd, kinds):
             i = rnd.choice(body)
             segs[i].append('')
             desc.append('trail@%d' % (i + 1))
+        elif kind == 'subtrail':       # empty trailing components written out with their separators (on a composite where there is one)
+            cands = [(i, j) for i in body for j in range(1, len(segs[i])) if ':' in segs[i][j]] or [(i, j) for i in body for j in range(2, len(segs[i])) if segs[i][j]]
+            if cands:
+                i, j = rnd.choice(cands)
+                segs[i][j] = segs[i][j] + ':' * rnd.choice([1, 2, 3])
+                desc.append('subtrail@%d.%d' % (i + 1, j))
     return ','.join(desc)
 
 
@@ -191,7 +197,7 @@ def fixtures():
 
 
 MUT_KINDS = ['value', 'value', 'value1', 'long', 'date', 'two', 'unknown', 'repeat', 'repeat', 'delete', 'first', 'last',
-             'trailer', 'header', 'spaces', 'trail']
+             'trailer', 'header', 'spaces', 'trail', 'subtrail']
 
 
 def targeted(fx):
@@ -242,6 +248,21 @@ def targeted(fx):
                 else:
                     s2[i].append('')
                 out.append(('%s/%s-body-segment/%s' % (key, name, how), join_doc(s2, delims)))
+    # every composite element of a fixture written with two empty trailing components, every third segment with two empty trailing elements
+    for key in ('simple_837p', '835id', '834_lui_id_5010'):
+        if key not in d:
+            continue
+        delims, segs = split_doc(d[key])
+        s2 = [list(x) for x in segs]
+        for k, x in enumerate(s2):
+            if x[0] in ENV:
+                continue
+            for j in range(1, len(x)):
+                if ':' in x[j]:
+                    x[j] = x[j] + '::'
+            if k % 3 == 0:
+                x.extend(['', ''])
+        out.append(('%s/empty-tails' % key, join_doc(s2, delims)))
     # element errors on the envelope TRAILERS whose offending value spells a segment identifier (the header's, or another one):
     # the report must show each of them next to its trailer, and the header's own element errors next to the header
     for key in ('simple_837p', '834_lui_id_5010', '835id'):
